@@ -535,8 +535,13 @@ func ruleCapsAndTimeouts(w *World, r *Run, ruleE, ruleF string) {
 				}
 			}
 			for _, d := range calls(s, "(*crypto/tls.Dialer).DialContext") {
-				wt := calls(s, "context.WithTimeout")
-				r.Check(len(wt) >= 1 && d.Args[0] == res(wt[len(wt)-1], 0), ruleF, fnConnect+" | dial under a timeout", w.pos(d.Pos), "bastion dial has no timeout")
+				under := false
+				for _, wt := range calls(s, "context.WithTimeout", "context.WithDeadline") {
+					if wt.Seq < d.Seq && d.Args[0] == res(wt, 0) {
+						under = true // the bounded context made for this very dial (each reconnect makes its own)
+					}
+				}
+				r.Check(under, ruleF, fnConnect+" | dial under a timeout", w.pos(d.Pos), "bastion dial has no timeout")
 			}
 		}
 		if nServe == 0 {
